@@ -197,37 +197,34 @@ func propC10(w *World, r *Report) {
 		}
 	}
 	// ---- D5: clean-up globs
-	var runMain *ssa.Function
-	if hci := analyseHandleConn(w); hci.err == nil {
-		if cs := w.callersOf(hci.fn); len(cs) == 1 {
-			runMain = cs[0]
-		}
-	}
 	var cleanup *ssa.Function
 	var cleanupCall *ssa.Call
-	var hcCall *ssa.Call
-	if runMain != nil {
-		for _, b := range runMain.Blocks {
-			for _, in := range b.Instrs {
-				c, ok := in.(*ssa.Call)
-				if !ok || c.Call.StaticCallee() == nil {
-					continue
-				}
-				callee := c.Call.StaticCallee()
-				if hci := analyseHandleConn(w); hci.err == nil && callee == hci.fn {
-					hcCall = c
-				}
-				if w.IsRepoFunc(callee) && callsGlobAndRemove(callee) {
-					cleanup, cleanupCall = callee, c
+	hciD := analyseHandleConn(w)
+	if hciD.err == nil {
+		// the clean-up: the function of the recorder's package that removes every file matched by a glob; its call site
+		for _, fn := range w.RepoFuncs() {
+			if fn.Pkg == hciD.fn.Pkg && callsGlobAndRemoveAll(w, fn) {
+				cleanup = fn
+			}
+		}
+		if cleanup != nil {
+			for _, f := range w.RepoFuncs() {
+				for _, b := range f.Blocks {
+					for _, in := range b.Instrs {
+						if c, ok := in.(*ssa.Call); ok && c.Call.StaticCallee() == cleanup {
+							cleanupCall = c
+						}
+					}
 				}
 			}
 		}
 	}
-	if cleanup == nil || hcCall == nil {
-		r.Fail("D4", "start-up clean-up is called from runMain before connections are handled", "-", "no function that globs and removes files is called from runMain (or no connection handler call)", "")
+	if cleanup == nil || cleanupCall == nil {
+		r.Fail("D4", "start-up clean-up is called from runMain before connections are handled", "-", "no function that globs and removes files is called on the start-up path (or no connection handler call)", "")
 		return
 	}
-	r.Check(cleanupCall.Block().Dominates(hcCall.Block()), "D4", "the clean-up dominates the first handleConn call (runs on every path before serving)", w.InstrPos(cleanupCall), "")
+	okBefore, how := runsBeforeServing(w, hciD.fn, cleanupCall, 0)
+	r.Check(okBefore, "D4", "the clean-up dominates the first handleConn call (runs on every path before serving)", w.InstrPos(cleanupCall), how)
 	checkCleanupOnlyAtStartup(w, r, "D4")
 	argT := newTermEnv(w).termOf(cleanupCall.Call.Args[0]).String()
 	r.Check(strings.HasPrefix(argT, "main.Config.OutputDir@"), "D4", "the clean-up runs on the configured output directory", w.InstrPos(cleanupCall), argT)
@@ -236,6 +233,15 @@ func propC10(w *World, r *Report) {
 		if strings.Contains(newTermEnv(w).termOf(iff.Cond).String(), cleanup.Name()+"(") {
 			if _, isRet := iff.Block().Succs[0].Instrs[len(iff.Block().Succs[0].Instrs)-1].(*ssa.Return); isRet {
 				okErr = true
+			}
+		}
+	}
+	if okErr {
+		// when the call sits in a stage function, that function's error must abort its caller as well
+		stage := cleanupCall.Parent()
+		if cs := w.callersOf(stage); len(cs) == 1 && w.callersOf(hciD.fn)[0] != stage {
+			if !returnsErrorOf(cs[0], stage) {
+				okErr = false
 			}
 		}
 	}
@@ -696,12 +702,10 @@ func checkCleanupOnlyAtStartup(w *World, r *Report, rule string) {
 					}
 					n++
 					construct := "in-progress-file clean-up " + cl.Name() + " called from " + f.Name()
-					if f == runMain {
-						if _, isGo := in.(*ssa.Go); isGo {
-							r.Fail(rule, construct, w.InstrPos(in), "the clean-up runs concurrently with the connection loop", "")
-						} else {
-							r.Pass(rule, construct, w.InstrPos(in), "start-up path")
-						}
+					if _, isGo := in.(*ssa.Go); isGo {
+						r.Fail(rule, construct, w.InstrPos(in), "the clean-up runs concurrently with the connection loop", "")
+					} else if ok, how := runsBeforeServing(w, hci.fn, in, 0); ok {
+						r.Pass(rule, construct, w.InstrPos(in), "start-up path: "+how)
 					} else {
 						r.Fail(rule, construct, w.InstrPos(in), "the clean-up that unlinks every in-progress recording file is called outside start-up: the open temporary files of the other recorders (continuous, test) are deleted under them", "")
 					}
@@ -747,4 +751,67 @@ func callsGlobAndRemoveAll(w *World, fn *ssa.Function) bool {
 		}
 	}
 	return false
+}
+
+// runsBeforeServing: instruction `site` executes only on the start-up path, before the connection handler can run: it
+// sits in a function on the call chain main -> ... -> handler at a point that precedes (dominates) the call leading to
+// the handler, or in a stage function whose single call site does (three levels).
+func runsBeforeServing(w *World, handler *ssa.Function, site ssa.Instruction, depth int) (bool, string) {
+	if depth > 3 {
+		return false, ""
+	}
+	// the chain of single callers above the handler, with the call instruction that leads down
+	type link struct {
+		fn   *ssa.Function
+		call ssa.Instruction
+	}
+	var chain []link
+	target := handler
+	for i := 0; i < 4; i++ {
+		cs := w.callersOf(target)
+		if len(cs) != 1 {
+			break
+		}
+		var calls []ssa.Instruction
+		for _, b := range cs[0].Blocks {
+			for _, in := range b.Instrs {
+				if ci, ok := in.(ssa.CallInstruction); ok && ci.Common().StaticCallee() == target {
+					calls = append(calls, in)
+				}
+			}
+		}
+		if len(calls) != 1 {
+			break
+		}
+		chain = append(chain, link{cs[0], calls[0]})
+		target = cs[0]
+	}
+	g := site.Parent()
+	for _, l := range chain {
+		if l.fn == g {
+			if site.Block() == l.call.Block() && instrIndex(site) < instrIndex(l.call) || site.Block() != l.call.Block() && site.Block().Dominates(l.call.Block()) {
+				return true, "in " + g.Name() + " before " + calleeNameCI(l.call.(ssa.CallInstruction))
+			}
+			return false, ""
+		}
+	}
+	// a stage function: exactly one call site, not a goroutine, itself on the start-up path
+	var sites []ssa.Instruction
+	for _, caller := range w.callersOf(g) {
+		for _, b := range caller.Blocks {
+			for _, in := range b.Instrs {
+				if ci, ok := in.(ssa.CallInstruction); ok && ci.Common().StaticCallee() == g {
+					sites = append(sites, in)
+				}
+			}
+		}
+	}
+	if len(sites) != 1 {
+		return false, ""
+	}
+	if _, isGo := sites[0].(*ssa.Go); isGo {
+		return false, ""
+	}
+	ok, how := runsBeforeServing(w, handler, sites[0], depth+1)
+	return ok, g.Name() + " <- " + how
 }
